@@ -423,3 +423,38 @@ def amuset(ctx, rev, opt, reweight, num):
         return keep
     res = ctx.explore('tgedmd.amuset_hosvd', body, cap=64)
     ctx.check('at least one feasible path', len(res) >= 1)
+
+
+# ------------------------------------------------------------ no memory between evaluations
+@scenario('C19', 'history', lambda tier: [{'d': 1, 'd2': 2, 'mix': MIX3[0]}, {'d': 2, 'd2': 2, 'mix': MIX2[0]}, {'d': 2, 'd2': 1, 'mix': MIX2[1]}])
+def history(ctx, d, d2, mix):
+    """generator_on_product / generator_on_product_reversible evaluated for one drift and diffusion, then with the SAME basis-function objects at the same
+    point for another drift and diffusion (two models on the same data), return what fresh basis-function objects return"""
+    tg, tdt = ctx.R.tgedmd, ctx.R.transform
+    if ctx.mode == 'tv':
+        raise SkipTV()
+    phi = [_funcs(ctx, tdt, d, w) for w in mix]
+    phi2 = [_funcs(ctx, tdt, d, w) for w in mix]            # fresh objects: the reference
+    n = [len(f) for f in phi]
+    if ctx.sym:
+        ts, t = _sym_point(ctx, d)
+        t2 = _sym_point(ctx, d)[1]
+    else:
+        t = np.array([ctx.scalar('t%d' % i) for i in range(d)], dtype=float)
+        t2 = t.copy()
+    b1, s1 = ctx.input('b', (d,), False), ctx.input('sigma', (d, d2), False)
+    b2, s2 = ctx.input('b2', (d,), False), ctx.input('sigma2', (d, d2), False)
+    idx = list(itertools.product(*[range(k) for k in n]))
+    for s in idx:
+        tg.generator_on_product(phi, s, t, b1, s1)           # first model: whatever may be remembered is now warm
+    from .C14 import _parity_lemmas
+    for s in idx:
+        got = tg.generator_on_product(phi, s, t, b2, s2)
+        ref = tg.generator_on_product(phi2, s, t2, ctx.input('b2', (d,), False), ctx.input('sigma2', (d, d2), False))
+        ctx.eq('generator_on_product%s for a second drift/diffusion == result of fresh basis-function objects' % (list(s),), got, ref,
+               **({'extra_assumptions': _parity_lemmas(got, ref)} if ctx.sym else {'tol': 1e-10}))
+        for i in range(d2):
+            g2 = tg.generator_on_product_reversible(phi, s, i, t, s2)
+            r2 = tg.generator_on_product_reversible(phi2, s, i, t2, ctx.input('sigma2', (d, d2), False))
+            ctx.eq('generator_on_product_reversible%s column %d for a second diffusion == result of fresh objects' % (list(s), i), g2, r2,
+                   **({'extra_assumptions': _parity_lemmas(g2, r2)} if ctx.sym else {'tol': 1e-10}))
